@@ -299,13 +299,23 @@ func c19Golden(tier string, seed int64, idx int, scratch string) rt.CaseResult {
 		c.AddDistinct("golden-vector/" + v.Bytes[:16])
 	}
 	// golden Badger directory: copy (Open modifies it), open, compare
-	work := filepath.Join(scratch, "golden")
+	// The content records hold the root paths as they were configured when the
+	// database was written (relative: "dbdir/root0"), so the copy is opened with
+	// the same relative configuration from inside the scratch directory.
+	os.MkdirAll(scratch, 0o755)
+	work := filepath.Join(scratch, "dbdir")
 	os.RemoveAll(work)
 	if out, err := exec.Command("cp", "-r", filepath.Join(goldenDir(), "dbdir"), work).CombinedOutput(); err != nil {
 		c.Inconclusive = append(c.Inconclusive, "copy golden dir: "+string(out))
 		return c
 	}
-	env, err := dbx.Open(dbx.Options{Mode: dbx.Inline, Dir: work})
+	wd, _ := os.Getwd()
+	if err := os.Chdir(scratch); err != nil {
+		c.Inconclusive = append(c.Inconclusive, "chdir: "+err.Error())
+		return c
+	}
+	defer os.Chdir(wd)
+	env, err := dbx.Open(dbx.Options{Mode: dbx.Inline, Dir: "dbdir"})
 	if err != nil {
 		c.Violate("golden-db-open", "the golden database directory does not open: "+err.Error(), nil)
 		return c
@@ -360,7 +370,11 @@ func genGolden(args []string) int {
 			Bytes string            `json:"bytes"`
 		}{File: map[string]string{"key_hex": hex.EncodeToString([]byte(f.Key)), "tx": f.TxId, "content": f.ContentId}, Seq: uint64(f.Seq), Bytes: hex.EncodeToString(p.data["file/"+f.ContentId])})
 	}
-	env, err := dbx.Open(dbx.Options{Mode: dbx.Inline, Dir: filepath.Join(dir, "dbdir")})
+	if err := os.Chdir(dir); err != nil {
+		fmt.Println(err)
+		return 1
+	}
+	env, err := dbx.Open(dbx.Options{Mode: dbx.Inline, Dir: "dbdir"})
 	if err != nil {
 		fmt.Println(err)
 		return 1
